@@ -127,6 +127,13 @@ func Sets() [][]Def {
 		{}, // no terminal at all: `start = ;`
 		{L("BQ", "`"), L("ABQ", "a`b"), L("TRI", "```"), L("DOLLAR", "$"), L("PCT", "%d"), L("NL", `\n`), L("BRACES", "{{}}")},
 		{L("P1", "!"), L("P2", "#"), L("P3", "&"), L("P4", "'"), L("P5", "*"), L("P6", ","), L("P7", "."), L("P8", "/"), L("P9", ":"), L("PA", "<"), L("PB", ">"), L("PC", "?"), L("PD", "["), L("PE", "]"), L("PF", "^"), L("PG", "_"), L("PH", "|"), L("PI", "~"), L("PJ", `\\n`), L("PK", `\"\"`)},
+		// one terminal owning more than 16 and more than 32 accepting states (an identifier next to many keywords: every
+		// proper prefix of a keyword is an identifier)
+		{L("KWHILE", "while"), L("KRETURN", "return"), L("KFUNCTION", "function"), L("KIF", "if"), L("KELSE", "else"), P("ID", "[a-z]+")},
+		{L("KWHILE", "while"), L("KRETURN", "return"), L("KFUNCTION", "function"), L("KINTERFACE", "interface"), L("KCONTINUE", "continue"), L("KDEFAULT", "default"), L("KPACKAGE", "package"), P("ID", "[a-z]+"), D("WS", "$WS")},
+		// one terminal per control character (and DEL, the quote, the backslash): each must be written into the emitted
+		// source as itself
+		controlSet(),
 		// terminals that also match the empty text: the start state is accepting and its terminal owns further states
 		{P("NUM", "[0-9]*"), P("ID", "[a-z]+")},
 		{P("REP", "(ab)*"), L("KX", "x")},
@@ -134,6 +141,14 @@ func Sets() [][]Def {
 		{P("OPT", "a?")},
 		{P("LAST", "[a-z]+"), P("MID", "[0-9]+"), P("NUL", "(_)*")},
 	}
+}
+
+func controlSet() []Def {
+	var out []Def
+	for c := 1; c <= 0x1F; c++ {
+		out = append(out, Def{Name: fmt.Sprintf("CT%02X", c), Src: fmt.Sprintf(`\x%02X`, c)})
+	}
+	return append(out, Def{Name: "CT7F", Src: `\x7F`}, Def{Name: "CTSQ", Src: `'`}, Def{Name: "CTBS", Src: `\\`}, Def{Name: "CTLS", Src: `\x2028`}, Def{Name: "CTBOM", Src: `\xFEFF`})
 }
 
 // MoreSets returns further definition sets for the thorough tiers: every pair and every consecutive triple of a pool
